@@ -367,6 +367,89 @@ def phrase_graph_line(case):
     return "P %d %s%s" % (case["ctx"], hexs(case["vocab"]), "".join(" " + hexs(g) for g in grams))
 
 
+def gen_long_line_case(rng):
+    """entries whose length crosses the sizes of the tool's output buffers (8192 bytes for raw counts, 65536 for ARPA):
+    just below / at / above one buffer and several buffers; after short lines, first and last in a section, adjacent"""
+    fmt = rng.choice(["raw", "raw", "arpa"])
+    B = 8192 if fmt == "raw" else 65536
+    mode = rng.choice(["copy", "single", "union", "multiple", "single", "union"])
+    kinds = ["word", "manywords"] + (["annot", "annot"] if fmt == "raw" else ["third"])
+    phrase = mode in ("union", "multiple") and rng.chance(1, 5)
+    if phrase:
+        kinds = [k for k in kinds if k != "manywords"]
+    ctx = rng.chance(1, 4)
+    short_words = [b"a", b"b", b"c"]
+    longword = [None]
+
+    def long_line(L):
+        kind = rng.choice(kinds)
+        pre = b"-1.5\t" if fmt == "arpa" else b""
+        if kind == "word":
+            w = b"W" * max(1, L - len(pre) - (2 if fmt == "raw" else 0))
+            longword[0] = w if longword[0] is None or len(w) == len(longword[0]) else longword[0]
+            if w != longword[0]:
+                return long_line_annot(L) if fmt == "raw" else long_third(L)
+            line = pre + w + (b"\t7" if fmt == "raw" else b"")
+        elif kind == "manywords":
+            body = L - len(pre) - (2 if fmt == "raw" else 0)
+            n = max(1, body // 2)
+            g = b" ".join(rng.choice(short_words[:2]) for _ in range(n))
+            g += b"b" * (body - len(g)) if body > len(g) else b""          # last word "a…bbb"/"b…bbb" may be unknown: fine
+            line = pre + g + (b"\t7" if fmt == "raw" else b"")
+        elif kind == "annot":
+            return long_line_annot(L)
+        else:
+            return long_third(L)
+        return line
+
+    def long_line_annot(L):
+        g = b" ".join(rng.choice(short_words) for _ in range(rng.range(1, 3)))
+        return g + b"\t" + b"x" * max(0, L - len(g) - 1)
+
+    def long_third(L):
+        g = b" ".join(rng.choice(short_words) for _ in range(rng.range(1, 2)))
+        head = b"-1.5\t" + g + b"\t-0.25"
+        return head + b" " * max(0, L - len(head))
+
+    def short_line(k=None):
+        g = b" ".join(rng.choice(short_words + [b"zz"]) for _ in range(k or rng.range(1, 3)))
+        return (b"-0.5\t" + g) if fmt == "arpa" else g + b"\t%d" % rng.range(1, 99)
+
+    lengths = [B - 1, B, B + 1, B + 2, B - 2, 2 * B - 1, 2 * B, 2 * B + 1, 3 * B + 5, B + rng.range(3, 500)]
+    nlong = rng.choice([1, 1, 2, 3])
+    layout = rng.choice(["after_short", "first", "last", "adjacent", "alone", "between"])
+    longs = [long_line(rng.choice(lengths)) for _ in range(nlong)]
+    shorts = [short_line() for _ in range(rng.range(2, 8))]
+    if layout == "first":
+        lines = longs + shorts
+    elif layout == "last" or layout == "after_short":
+        lines = shorts + longs
+    elif layout == "adjacent":
+        lines = shorts[:2] + longs + longs[:1] + shorts[2:]
+    elif layout == "alone":
+        lines = longs
+    else:
+        lines = []
+        for i, l in enumerate(longs):
+            lines += shorts[i::nlong][:3] + [l]
+        lines += shorts[:1]
+    words = list(short_words) + ([longword[0]] if longword[0] else [])
+    if rng.chance(1, 5):
+        words = words[:2]                                                   # some entries are dropped
+    sep = b"\t" if phrase else b" "
+    nsent = 1 if mode in ("copy", "single") else rng.range(1, 3)
+    vocab = b"".join(sep.join(words if j == 0 or rng.chance(1, 2) else words[:1]) + b"\n" for j in range(nsent))
+    case = {"mode": mode, "ctx": ctx, "phrase": phrase, "fmt": fmt, "vocab": vocab, "vocab_as_file": rng.chance(1, 4)}
+    if fmt == "raw":
+        case["sections"] = [lines]
+        case["no_final_newline"] = rng.chance(1, 6)
+    else:
+        # ARPA: section k holds k-grams by convention only (the filter does not count words); long lines in the first or last section
+        other = [short_line(2) for _ in range(rng.range(0, 4))]
+        case["sections"] = rng.choice([[lines], [lines, other], [other, lines], [[short_line(1)], other, lines]])
+    return case
+
+
 def gen_medium_case(rng):
     """a model with many more n-grams of one order than a (small) batch holds, so that with threads >= 2 several
     batches are inside the filter at the same moment"""
@@ -559,6 +642,9 @@ def run(ctx):
     ctx.count("corpus_cases", len(cases))
     cases += [gen_case(rng) for _ in range(ctx.pick(1500, 12000))]
     cases += [gen_exhaustive_phrase_case(rng) for _ in range(ctx.pick(60, 1000))]
+    longc = [gen_long_line_case(rng) for _ in range(ctx.pick(30, 400))]
+    cases += longc
+    ctx.coverage["long_line_cases"] = len(longc)
     medium = [gen_medium_case(rng) for _ in range(ctx.pick(16, 200))]
     n_small = len(cases)
     cases += medium
